@@ -268,15 +268,23 @@ def copyIntoOp (w : World) (src tgt : String) : Except Err Unit × World :=
     | (.error e, w2) => (.error e, w2)
   | _, _ => (.error .key, w)
 
-/-- `copy.deepcopy(src)`: the same structure (including the name counter), fresh copies of every dict -/
+/-- `copy.deepcopy(src)`: the same structure (including the name counter) and a fresh copy of every dict
+OBJECT: `copy.deepcopy` keeps a memo (identity of a source object ↦ its copy), so simplices that hold the very
+same dict object in the source hold one common new dict object in the copy. `y.1` is that memo (source cell id
+↦ fresh cell id): one fresh cell per distinct source cell id, allocated in order of first occurrence in
+`s.attrs`, with the content of the source cell. Every simplex is mapped to the fresh cell of its source cell
+(every cell id of `s.attrs` is a key of the memo, so the `getD` default is never used). -/
 def deepcopyOp (w : World) (src h : String) : Except Err Unit × World :=
   match w.obj? src with
   | none => (.error .key, w)
   | some s =>
     let r := w.freshId
-    let o : Obj := { rep := r.1, c := emptyC, attrs := [], filt := s.filt }
-    let y := sync r.2 o s.c noSpecial (fun n => s.dictOf w n)
-    (.ok (), y.2.setObj h y.1)
+    let y := s.attrs.foldl (fun (acc : List (Nat × Nat) × World) p =>
+      match (acc.1.find? (fun q => q.1 == p.2)).map (·.2) with
+      | some _ => acc
+      | none => let a := acc.2.alloc ((w.cell? p.2).getD []); (acc.1 ++ [(p.2, a.1)], a.2)) ([], r.2)
+    let attrs := s.attrs.map (fun p => (p.1, ((y.1.find? (fun q => q.1 == p.2)).map (·.2)).getD p.2))
+    (.ok (), y.2.setObj h { rep := r.1, c := s.c, attrs := attrs, filt := s.filt })
 
 /-- shared simplices get a new dict = a's updated with b's (`d[s] = attr`) -/
 def mergeAttrs (w : World) (a b : Obj) (h : String) (shared : List Name) : World :=
